@@ -341,6 +341,18 @@ func moveOutDir(w *bytes.Buffer, value json.RawMessage,
 	return errs.If()
 }
 
+// The type of the elements of an array: for a multi-dimensional array, the
+// array of one fewer dimensions.
+func arrayElementType(t *syntax.ArrayType) syntax.Type {
+	if t.Dim > 1 {
+		return &syntax.ArrayType{
+			Elem: t.Elem,
+			Dim:  t.Dim - 1,
+		}
+	}
+	return t.Elem
+}
+
 func moveOutArrayDir(w *bytes.Buffer, value json.RawMessage,
 	t *syntax.ArrayType,
 	member *syntax.StructMember, lookup *syntax.TypeLookup,
@@ -360,10 +372,11 @@ func moveOutArrayDir(w *bytes.Buffer, value json.RawMessage,
 	if _, err := w.WriteString("[\n"); err != nil {
 		return err
 	}
+	elemType := arrayElementType(t)
 	p := syntax.StructMember{
-		Tname: t.Elem.TypeId(),
+		Tname: elemType.TypeId(),
 	}
-	p.CacheIsFile(t.Elem)
+	p.CacheIsFile(elemType)
 	width := util.WidthForInt(len(valueArr))
 	var errs syntax.ErrorList
 	for i, v := range valueArr {
@@ -376,7 +389,7 @@ func moveOutArrayDir(w *bytes.Buffer, value json.RawMessage,
 		p.Id = k
 		if err := moveOutFiles(w,
 			&p,
-			t.Elem.IsFile(),
+			elemType.IsFile(),
 			v,
 			lookup,
 			pipestancePath,
@@ -826,10 +839,11 @@ func printOutArrayDir(w *bytes.Buffer, value json.RawMessage,
 	}
 	width := util.WidthForInt(len(valueArr))
 	newIndent := makeNewIndent(indent, width)
+	elemType := arrayElementType(t)
 	p := syntax.StructMember{
-		Tname: t.Elem.TypeId(),
+		Tname: elemType.TypeId(),
 	}
-	p.CacheIsFile(t.Elem)
+	p.CacheIsFile(elemType)
 	var errs syntax.ErrorList
 	for i, v := range valueArr {
 		if _, err := w.Write(newIndent); err != nil {
@@ -845,7 +859,7 @@ func printOutArrayDir(w *bytes.Buffer, value json.RawMessage,
 		p.Id = k
 		if err := printOutParam(w,
 			&p,
-			t.Elem.IsFile(),
+			elemType.IsFile(),
 			v,
 			lookup,
 			newIndent[:1], newIndent); err != nil {
